@@ -830,25 +830,27 @@ def wfExecItem : Option Bytes → Bool
       (let p := partition2 [32] s
        s.contains 32 && (p.1 = k "CreateThread" || p.1 = k "CreateRemoteThread") && 2 ≤ p.2.length))
 
+/-- what a branch requires of its value -/
+def wfAct (uris : List (Option Bytes)) : Act → PVal → Bool
+  | .pass, _ => true
+  | .profOpt _, v => wfScalar v
+  | .blkOpt _ _, v => wfScalar v
+  | .blkConst _ _ _, v => wfScalar v
+  | .uris, _ => uris.all fun u => match u with | some s => wfText s | Option.none => false
+  | .recover, .recover l => (l.filter (·.isTerm)).length == 1
+  | .request .getClient, .transform p => wfProgram [k "metadata", k "output"] p
+  | .request _, .transform p => wfProgram [k "id", k "output"] p
+  | .perms _ _ _, v => wfScalar v
+  | .injT _, .inj _ => true
+  | .execute, .execute l => l.all wfExecItem
+  | .allocator, v => wfScalar v
+  | .gate, .gate l => l.all gateLabels.contains
+  | _, _ => false
+
 def wfSetting (uris : List (Option Bytes)) (kv : Nat × PVal) : Bool :=
   match actionTable.find? (·.1 == kv.1) with
   | Option.none => true
-  | some (_, _, a) =>
-    match a, kv.2 with
-    | .pass, _ => true
-    | .profOpt _, v => wfScalar v
-    | .blkOpt _ _, v => wfScalar v
-    | .blkConst _ _ _, v => wfScalar v
-    | .uris, _ => uris.all fun u => match u with | some s => wfText s | Option.none => false
-    | .recover, .recover l => (l.filter (·.isTerm)).length == 1
-    | .request .getClient, .transform p => wfProgram [k "metadata", k "output"] p
-    | .request _, .transform p => wfProgram [k "id", k "output"] p
-    | .perms _ _ _, v => wfScalar v
-    | .injT _, .inj _ => true
-    | .execute, .execute l => l.all wfExecItem
-    | .allocator, v => wfScalar v
-    | .gate, .gate l => l.all gateLabels.contains
-    | _, _ => false
+  | some (_, _, a) => wfAct uris a kv.2
 
 /-- the configurations the property quantifies over -/
 def WellFormedCfg (cfg : List (Nat × PVal)) (uris : List (Option Bytes)) : Bool :=
